@@ -130,6 +130,9 @@ func (Engine) Run(c *simkit.Choices, x *simkit.Ctx) *simkit.Violation {
 			if c.N(6) == 0 {
 				// an empty read (0, nil) now and then: "nothing happened", not EOF
 				sc.Reads = append(sc.Reads, 0)
+				if c.N(4) == 0 {
+					sc.Reads[len(sc.Reads)-1] = -[]int{2, 99, 100, 101, 150}[c.N(5)]
+				}
 				if c.Bool() {
 					sc.Reads[0], sc.Reads[len(sc.Reads)-1] = sc.Reads[len(sc.Reads)-1], sc.Reads[0]
 				}
